@@ -89,3 +89,33 @@ def span_classes(model, configs):
             if isinstance(c, ClassInfo) and c not in out:
                 out.append(c)
     return out
+
+
+def container_readers(ctx):
+    """Block token classes (plus ListItem) whose read() re-tokenizes a buffer: their own read reaches
+    block_tokenizer.tokenize_block in the call graph without going through another token class's read()
+    (helpers extracted from read are followed; List.read -> ListItem.read -> tokenize_block makes
+    ListItem, not List, the container reader)."""
+    model = ctx.model
+    if 'container_readers' in ctx._cache:
+        return ctx._cache['container_readers']
+    cg = ctx.callgraph()
+    tb = model.func('block_tokenizer.tokenize_block')
+    cands = list(block_classes(model, ctx.configs()))
+    for extra in ('block_token.ListItem',):
+        if model.has_cls(extra) and model.cls(extra) not in cands:
+            cands.append(model.cls(extra))
+    reads = {}
+    for c in cands:
+        hit = c.lookup('read')
+        if hit is not None and hit[0] == 'method':
+            reads[c] = hit[1]
+    # every read() of a class following the protocol, in the active lists or not
+    all_reads = {f.qualname for f in cg.by_name.get('read', []) if f.cls is not None}
+    out = []
+    for c, rd in reads.items():
+        stop = all_reads - {rd.qualname}
+        if tb.qualname in cg.reachable([rd], stop=stop) and c not in out:
+            out.append(c)
+    ctx._cache['container_readers'] = out
+    return out
